@@ -183,6 +183,17 @@ PROPS["C08"] = dict(
                  "after a stop request completed the run loop would exit: no further events are delivered"],
 )
 
+PROPS["C20"] = dict(
+    pkg="./props/session", level="exploration", design_ref="DESIGN.md §3 C20",
+    technique="rapid state machine on a harness-owned virtual clock (timer hook H2): timed trace invariants over heartbeats, test requests, dead-peer disconnect, and preservation of recovery bookkeeping across a pending test request",
+    level_note=SESSION_NOTE + " Timers are observed at EventTimer.Reset and fired by the harness at the armed deadline; the real-timer run loop is exercised only by the C05 socket runs.",
+    stages=[dict(name="rapid", kind="rapid", run="^TestC20_Rapid$", checks=(1500, 30000), shards=(12, 16), timeout=(600, 3000))],
+    require=["history-with:deadline-crossed:heartbeat", "history-with:deadline-crossed:peer", "history-with:inbound-while-pending", "history-with:inbound-while-pending-during-recovery",
+             "history-with:test-request-answered", "history-with:reconnect", "override:true", "override:false"],
+    assumptions=["virtual time: a timer fires exactly at the deadline the engine armed through EventTimer.Reset, never otherwise",
+                 "'nothing sent/received' is measured from the last frame written / delivered in virtual time"],
+)
+
 NOT_APPLICABLE = {}
 
 HOOK_COMMITS = ["ce15100"]
